@@ -1,2 +1,58 @@
-(* C13 -- statement file *)
-From SV Require Import Filt.Text.
+(* C13 -- filter objects survive conversion to text and back (no filter injection). *)
+From Coq Require Import ZArith NArith List Bool.
+From Coq.Strings Require Import Byte.
+From SV Require Import Base.Bytes Base.Py Rx.Syntax Gen.Generated Msg.Types Filt.Text Filt.Value Filt.Simple Filt.RoundTrip.
+Import ListNotations.
+
+(* [print_filter] mirrors __str__ of the ten filter classes, [from_string] mirrors
+   LDAPFilter.from_string (strip, surrogateescape-encode, recursive descent with offsets); both run
+   against the implementation on every check.  [wf_tfilter]: attribute descriptions and matching rules
+   accepted by the generated _ATTRIBUTE_PATTERN, non-empty and/or, a substrings assertion that asserts
+   something and nothing empty, an extensible match with an attribute, a rule or :dn (a rule spelled
+   "dn" only after :dn).  Assertion values are ARBITRARY octet strings.  [d] is the recursion budget
+   (two Python frames per nesting level). *)
+Theorem C13_from_string_of_str :
+  forall d f, (tdepth f <= d)%nat -> wf_tfilter f -> from_string d (bn (print_filter f)) = FOk f.
+Proof. exact from_string_str. Qed.
+
+(* the same inside any surrounding text: the parser stops exactly at the end of the filter's text *)
+Theorem C13_text_round_trip :
+  forall d f, (tdepth f <= d)%nat -> wf_tfilter f ->
+  forall pre post junk,
+  unpack_filter d (pre ++ (print_filter f ++ post) ++ junk) (zlen pre) (zlen (print_filter f ++ post))
+  = FOk (f, zlen (print_filter f)).
+Proof. exact text_round_trip. Qed.
+
+(* values: every octet string is recovered from its escaped form ... *)
+Theorem C13_value_round_trip : forall v off len, unpack_value (ser_value v) off len = FOk v.
+Proof. exact unpack_value_ser. Qed.
+
+(* ... and the escaped form contains no special octet (NUL, controls, parentheses, asterisk, DEL and
+   above) other than the backslash that starts an escape: value content cannot alter the structure *)
+Theorem C13_value_text_is_inert :
+  forall v b, In b (ser_value v) -> special (b2n b) = false \/ b = c_bs.
+Proof. exact ser_value_chars. Qed.
+
+Theorem C13_text_is_ascii : forall f, wf_tfilter f -> Forall (fun b => (b2n b < 128)%N) (print_filter f).
+Proof. exact print_ascii. Qed.
+
+(* non-vacuity: nesting, hostile values, options, OIDs, every node kind *)
+Example C13_example :
+  let f := FAnd [FNot (FEq [x63; x6e] [x29; x28; x2a; x5c; x00; xff; x26]);
+                 FOr [FSub [x61; x3b; x78] (Some [x2a]) [[x29]; [x5c; x32; x61]] None; FPresent [x31; x2e; x32]];
+                 FExt (Some [x64; x6e]) None [x28] true; FExt None (Some [x6f]) [] false;
+                 FGe [x61] []; FLe [x61] [x3d]; FApprox [x61] [x7e; x3d]] in
+  wf_tfilter f /\ (tdepth f <= 6)%nat /\ from_string 6 (bn (print_filter f)) = FOk f.
+Proof.
+  cbv zeta. split; [|split].
+  - repeat (constructor || discriminate || (vm_compute; reflexivity) || (intros [? ?]; discriminate)
+            || (intros [? [? ?]]; discriminate)).
+  - vm_compute. repeat constructor.
+  - vm_compute. reflexivity.
+Qed.
+
+Print Assumptions C13_from_string_of_str.
+Print Assumptions C13_text_round_trip.
+Print Assumptions C13_value_round_trip.
+Print Assumptions C13_value_text_is_inert.
+Print Assumptions C13_text_is_ascii.
